@@ -1,4 +1,5 @@
 import GomlVerif.Props.GoPrint
+import GomlVerif.Props.C19
 /-!
 # The lexical half of the printer's round trip, at character level (round 11)
 
@@ -15,8 +16,14 @@ every token text followed by the next piece, one blank per `sp`, a newline and A
 * `lex_render_tokens_partial` — both together for layouts whose tokens are identifiers / keywords separated by
   blanks or newlines.
 
-Missing for the full `lex_render_tokens` (validated by the `golex` tie on 767 675 real tokens instead): the `TokSound`
-fact for numbers, strings and operators derived from `Tok.wf` + `glueFree`.
+Second pass (bottom of the file): `goIdent_wf` (every output of `go_ident` is a `Tok.wf` identifier), `lexTok_int`
+(decimal integers), `lexTok_op` (each of Go's 47 operators, maximal munch, boundary `opEnds`), and
+`lex_render_tokens_spaced_partial` (identifiers, keywords, integers and operators separated by blanks / newlines).
+
+Missing for the full `lex_render_tokens` (validated by the `golex` tie on 767 675 real tokens instead): floats and
+strings, and the derivation of the per-kind boundaries (`wordEnds`, `intEnds`, `opEnds`) from `glueFree` for tokens
+written with nothing between them (`glued` is pairwise and misses `.` `.` `.` = `...`, see the example; `glued` is left
+as it is).
 -/
 namespace Goml.GoPrint
 open Goml.GoLex
@@ -239,6 +246,375 @@ example : GoLex.lex (layChars [(.tok (.kw "return"), 0), (.sp, 0), (.tok (.ident
     some [⟨.kw, "return".toList⟩, ⟨.ident, ['x']⟩, semiTok, ⟨.kw, "break".toList⟩, semiTok] := by
   rw [lex_render_tokens_partial _ (by
     refine ⟨Or.inr ⟨_, rfl⟩, by decide, trivial, Or.inl ⟨_, rfl⟩, by decide, trivial, Or.inr ⟨_, rfl⟩, by decide, trivial, trivial⟩)]
+  decide
+
+end Goml.GoPrint
+
+/-! # Round 11, second pass: `go_ident` outputs, integers, operators -/
+namespace Goml.GoPrint
+open Goml.GoLex Goml.Mangle
+
+/-! ## (1) every output of `go::mangle::go_ident` is a well-formed identifier token -/
+
+theorem isDigit_eq_ascii (c : Char) : isDigit c = isAsciiDigit c := by
+  simp only [isDigit, Char.isDigit, isAsciiDigit, Char.toNat, ge_iff_le, UInt32.le_iff_toNat_le]
+  rfl
+
+theorem asciiAlpha_isLetter (c : Char) (h : isAsciiAlpha c = true) : isLetter c = true := by
+  have : c.isAlpha = true := by
+    simp only [isAsciiAlpha, isAsciiLower, isAsciiUpper, Bool.or_eq_true, Bool.and_eq_true, decide_eq_true_eq, Char.toNat] at h
+    simp only [Char.isAlpha, Char.isUpper, Char.isLower, ge_iff_le, UInt32.le_iff_toNat_le, Bool.or_eq_true, Bool.and_eq_true,
+      decide_eq_true_eq]
+    rcases h with h | h
+    · right; exact h
+    · left; exact h
+  simp [isLetter, this]
+
+theorem identStart_isLetter (c : Char) (h : isIdentStart c = true) : isLetter c = true := by
+  simp only [isIdentStart, Bool.or_eq_true, beq_iff_eq] at h
+  rcases h with h | rfl
+  · exact asciiAlpha_isLetter c h
+  · decide
+
+theorem identChar_isIdChar (c : Char) (h : isIdentChar c = true) : isIdChar c = true := by
+  simp only [isIdentChar, isAsciiAlnum, Bool.or_eq_true, beq_iff_eq] at h
+  rcases h with (h | h) | rfl
+  · simp [isIdChar, asciiAlpha_isLetter c h]
+  · simp [isIdChar, isDigit_eq_ascii, h]
+  · decide
+
+theorem lexKeywords_spec : ∀ k ∈ GoLex.keywords, k ∈ goSpecKeywords := by decide
+
+/-- **the names the compiler emits are identifier tokens of Go's grammar**: for EVERY string, `go_ident`'s output
+    satisfies `Tok.wf` (letter or `_`, then letters / digits / `_`, not one of Go's 25 keywords) — from `goIdent_legal`
+    (C19); so `lexTok_ident` / `lex_render_tokens_partial` apply to them -/
+theorem goIdent_wf (s : Mangle.Name) : (Tok.ident (String.ofList (goIdent s))).wf = true := by
+  obtain ⟨hv, _, hk⟩ := goIdent_legal s
+  unfold Tok.wf
+  simp only [String.toList_ofList]
+  cases hg : goIdent s with
+  | nil => simp [hg, isValidGoIdent] at hv
+  | cons c w =>
+    rw [hg] at hv hk
+    simp only [isValidGoIdent, Bool.and_eq_true] at hv
+    have h1 : isLetter c = true := identStart_isLetter c hv.1
+    have h2 : w.all isIdChar = true := by
+      have := hv.2
+      rw [List.all_eq_true] at this ⊢
+      intro x hx; exact identChar_isIdChar x (this x hx)
+    have h3 : GoLex.keywords.contains (c :: w) = false := by
+      cases hc : GoLex.keywords.contains (c :: w) with
+      | false => rfl
+      | true => exact absurd (lexKeywords_spec _ (by simpa using hc)) hk
+    have hn : ¬ (c :: w ∈ GoLex.keywords) := fun h => hk (lexKeywords_spec _ h)
+    simp [h1, h2, hn]
+
+/-! ## (2) decimal integer literals -/
+
+theorem digit_not_letter (c : Char) (h : isDigit c = true) : isLetter c = false := by
+  rw [isDigit_eq_ascii] at h
+  simp only [isAsciiDigit, Bool.and_eq_true, decide_eq_true_eq, Char.toNat] at h
+  simp only [isLetter, Char.isAlpha, Char.isUpper, Char.isLower, ge_iff_le, UInt32.le_iff_toNat_le, Bool.or_eq_false_iff,
+    Bool.and_eq_false_iff, decide_eq_false_iff_not, beq_eq_false_iff_ne, ne_eq, Char.toNat]
+  have e1 : 'A'.val.toNat = 65 := by decide
+  have e2 : 'a'.val.toNat = 97 := by decide
+  refine ⟨⟨⟨?_, ?_⟩, ?_⟩, ?_⟩
+  · omega
+  · omega
+  · rintro rfl; revert h; decide
+  · omega
+
+/-- the next character does not continue a decimal literal: not a digit, letter, `_`, nor `.` -/
+def intEnds (rest : List Char) : Prop := ∀ c r, rest = c :: r → isIdChar c = false ∧ c ≠ '.'
+
+theorem scanFrac_stop (rest : List Char) (h : intEnds rest) : scanFrac rest = ([], rest) := by
+  cases rest with
+  | nil => rfl
+  | cons c r =>
+    have hc := (h c r rfl).2
+    unfold scanFrac
+    split
+    · rename_i heq; cases heq; exact absurd rfl hc
+    · rfl
+
+theorem scanExp_stop (rest : List Char) (h : ∀ c r, rest = c :: r → isIdChar c = false) : scanExp rest = ([], rest) := by
+  cases rest with
+  | nil => rfl
+  | cons c r =>
+    have hc := h c r rfl
+    have h1 : (c == 'e') = false := by
+      cases hh : c == 'e' with
+      | false => rfl
+      | true => rw [beq_iff_eq] at hh; subst hh; exact absurd hc (by decide)
+    have h2 : (c == 'E') = false := by
+      cases hh : c == 'E' with
+      | false => rfl
+      | true => rw [beq_iff_eq] at hh; subst hh; exact absurd hc (by decide)
+    simp [scanExp, h1, h2]
+
+/-- **a decimal integer literal at character level**: digits followed by anything that does not start with a digit, a
+    letter, `_` or `.` are lexed as ONE `num` token with exactly those digits, and lexing stops there -/
+theorem lexTok_int (d : Char) (ds rest : List Char) (hd : isDigit d = true) (hds : ds.all isDigit = true)
+    (hr : intEnds rest) : lexTok (d :: (ds ++ rest)) = some (⟨.num, d :: ds⟩, rest) := by
+  have hnl := digit_not_letter d hd
+  have hid : ∀ c r, rest = c :: r → isIdChar c = false := fun c r e => (hr c r e).1
+  have hdig : ∀ c r, rest = c :: r → isDigit c = false := by
+    intro c r e
+    have := hid c r e
+    simp only [isIdChar, Bool.or_eq_false_iff] at this
+    exact this.2
+  have tw := takeWhile_stop isDigit (d :: ds) rest (by simp [hd, hds]) hdig
+  rw [List.cons_append] at tw
+  simp [lexTok, hnl, hd, scanNum, tw.1, tw.2, scanFrac_stop rest hr, scanExp_stop rest hid]
+
+def isIntText (cs : List Char) : Bool := !cs.isEmpty && cs.all isDigit
+
+theorem lexTok_intTok (s : String) (h : isIntText s.toList = true) (rest : List Char) (hr : intEnds rest) :
+    lexTok (s.toList ++ rest) = some ((Tok.num s).lt, rest) := by
+  cases hs : s.toList with
+  | nil => simp [hs, isIntText] at h
+  | cons d ds =>
+    simp only [hs, isIntText, List.all_cons, Bool.and_eq_true] at h
+    rw [List.cons_append, lexTok_int d ds rest h.2.1 h.2.2 hr]
+    simp [Tok.lt, hs]
+
+/-! ## (3) operators and punctuation: maximal munch -/
+
+def allOps : List (List Char) := ops1 ++ ops2 ++ ops3
+/-- what can be longer than an operator: the 2- and 3-character operators and the two comment openers -/
+def longerOps : List (List Char) := ops2 ++ ops3 ++ [['/', '/'], ['/', '*']]
+
+/-- the operator followed by `c` is the beginning of a longer operator (or of a comment) -/
+def extendsOp (o : List Char) (c : Char) : Bool := longerOps.any fun p => (o ++ [c]).isPrefixOf p
+
+/-- the next character does not extend the operator under maximal munch (and `.` is not followed by a digit: `.5`) -/
+def opEnds (o rest : List Char) : Prop :=
+  ∀ c r, rest = c :: r → extendsOp o c = false ∧ (o = ['.'] → isDigit c = false)
+
+theorem take_len_add (c : Char) (r : List Char) (j : Nat) : ∀ o : List Char,
+    (o ++ c :: r).take (o.length + 1 + j) = (o ++ [c]) ++ r.take j := by
+  intro o
+  induction o with
+  | nil => simp [show 0 + 1 + j = j + 1 from by omega]
+  | cons a o ih =>
+    have : (a :: o).length + 1 + j = (o.length + 1 + j) + 1 := by simp; omega
+    rw [this, List.cons_append, List.take_succ_cons, ih]; rfl
+
+/-- the generic lemma: nothing longer than `o` is an operator at this position -/
+theorem take_not_longer (o rest p : List Char) (hp : p ∈ longerOps) (hl : o.length < p.length) (hr : opEnds o rest) :
+    (o ++ rest).take p.length ≠ p := by
+  intro he
+  cases rest with
+  | nil =>
+    have := congrArg List.length he
+    simp at this; omega
+  | cons c r =>
+    have h1 := (hr c r rfl).1
+    obtain ⟨j, hj⟩ : ∃ j, p.length = o.length + 1 + j := ⟨p.length - o.length - 1, by omega⟩
+    rw [hj, take_len_add] at he
+    have hpre : (o ++ [c]).isPrefixOf p = true := by
+      rw [List.isPrefixOf_iff_prefix]; exact ⟨_, he⟩
+    have : extendsOp o c = true := List.any_eq_true.mpr ⟨p, hp, hpre⟩
+    rw [h1] at this; cases this
+
+theorem ops3_len : ∀ p ∈ ops3, p.length = 3 := by decide
+theorem ops2_len : ∀ p ∈ ops2, p.length = 2 := by decide
+theorem ops1_len : ∀ p ∈ ops1, p.length = 1 := by decide
+
+theorem no_op3 (o rest : List Char) (hl : o.length < 3) (hr : opEnds o rest) : ops3.contains ((o ++ rest).take 3) = false := by
+  cases h : ops3.contains ((o ++ rest).take 3) with
+  | false => rfl
+  | true =>
+    have hm : (o ++ rest).take 3 ∈ ops3 := by simpa using h
+    have h3 := ops3_len _ hm
+    have := take_not_longer o rest ((o ++ rest).take 3)
+      (by simp only [longerOps, List.mem_append]; exact Or.inl (Or.inr hm)) (by omega) hr
+    rw [h3] at this; exact absurd rfl this
+
+theorem no_op2 (o rest : List Char) (hl : o.length < 2) (hr : opEnds o rest) : ops2.contains ((o ++ rest).take 2) = false := by
+  cases h : ops2.contains ((o ++ rest).take 2) with
+  | false => rfl
+  | true =>
+    have hm : (o ++ rest).take 2 ∈ ops2 := by simpa using h
+    have h2 := ops2_len _ hm
+    have := take_not_longer o rest ((o ++ rest).take 2)
+      (by simp only [longerOps, List.mem_append]; exact Or.inl (Or.inl hm)) (by omega) hr
+    rw [h2] at this; exact absurd rfl this
+
+/-- maximal munch returns the operator when the next character does not extend it -/
+theorem munch_op (o rest : List Char) (ho : o ∈ allOps) (hr : opEnds o rest) : munch (o ++ rest) = some (o, rest) := by
+  simp only [allOps, List.mem_append] at ho
+  rcases ho with (h1 | h2) | h3
+  · have hl := ops1_len o h1
+    have n3 : ¬ ((o ++ rest).take 3 ∈ ops3) := by simpa using no_op3 o rest (by omega) hr
+    have n2 : ¬ ((o ++ rest).take 2 ∈ ops2) := by simpa using no_op2 o rest (by omega) hr
+    simp [munch, n3, n2, List.take_left' hl, List.drop_left' hl, h1]
+  · have hl := ops2_len o h2
+    have n3 : ¬ ((o ++ rest).take 3 ∈ ops3) := by simpa using no_op3 o rest (by omega) hr
+    simp [munch, n3, List.take_left' hl, List.drop_left' hl, h2]
+  · have hl := ops3_len o h3
+    simp [munch, List.take_left' hl, List.drop_left' hl, h3]
+
+def opHeadOK : List Char → Bool
+  | c :: _ => !isLetter c && !isDigit c && c != '"' && !isBlank c && c != '\n'
+  | [] => false
+
+theorem ops_head : ∀ o ∈ allOps, opHeadOK o = true := by decide
+theorem ops_dot : ∀ o ∈ allOps, o.head? = some '.' → o = ['.'] ∨ o = ['.', '.', '.'] := by decide
+theorem ops_slash : ∀ o ∈ allOps, o.head? = some '/' → o = ['/'] ∨ o = ['/', '='] := by decide
+
+/-- **an operator / punctuation token at character level**: any of Go's 47 operators followed by a character that does
+    not extend it (no operator and no comment opener starts with operator + that character; `.` not before a digit) is
+    lexed as that `sym` token, and lexing stops there -/
+theorem lexTok_op (o rest : List Char) (ho : o ∈ allOps) (hr : opEnds o rest) :
+    lexTok (o ++ rest) = some (⟨.sym, o⟩, rest) := by
+  have hm := munch_op o rest ho hr
+  have hh := ops_head o ho
+  cases ho' : o with
+  | nil => simp [ho', opHeadOK] at hh
+  | cons c0 o' =>
+    rw [ho'] at hm hh
+    simp only [opHeadOK, Bool.and_eq_true, Bool.not_eq_true', bne_iff_ne, ne_eq] at hh
+    obtain ⟨⟨⟨⟨hl, hd⟩, hq⟩, _⟩, _⟩ := hh
+    have hdot : (c0 == '.' && startsDigit (o' ++ rest)) = false := by
+      cases hc : c0 == '.' with
+      | false => rfl
+      | true =>
+        rw [beq_iff_eq] at hc; subst hc
+        rcases ops_dot o ho (by simp [ho']) with h | h
+        · rw [ho'] at h; injection h with _ h'; subst h'
+          cases rest with
+          | nil => rfl
+          | cons c r => simpa [startsDigit] using (hr c r rfl).2 (by rw [ho'])
+        · rw [ho'] at h; injection h with _ h'; subst h'; rfl
+    have hsl : (c0 == '/' && startsComment (o' ++ rest)) = false := by
+      cases hc : c0 == '/' with
+      | false => rfl
+      | true =>
+        rw [beq_iff_eq] at hc; subst hc
+        rcases ops_slash o ho (by simp [ho']) with h | h
+        · rw [ho'] at h; injection h with _ h'; subst h'
+          cases rest with
+          | nil => rfl
+          | cons c r =>
+            have he := (hr c r rfl).1
+            rw [ho'] at he
+            have n1 : c ≠ '/' := by rintro rfl; exact absurd he (by decide)
+            have n2 : c ≠ '*' := by rintro rfl; exact absurd he (by decide)
+            simp only [Bool.true_and, List.nil_append]
+            unfold startsComment
+            split
+            · rename_i heq; cases heq; exact absurd rfl n1
+            · rename_i heq; cases heq; exact absurd rfl n2
+            · rfl
+        · rw [ho'] at h; injection h with _ h'; subst h'; rfl
+    have hq' : (c0 == '"') = false := by simpa using hq
+    rw [List.cons_append] at hm ⊢
+    simp [lexTok, hl, hd, hdot, hsl, hq', hm]
+
+theorem lexTok_symTok (s : String) (h : s.toList ∈ allOps) (rest : List Char) (hr : opEnds s.toList rest) :
+    lexTok (s.toList ++ rest) = some ((Tok.sym s).lt, rest) := by
+  rw [lexTok_op _ _ h hr]; rfl
+
+/-- the obstacle to deriving `opEnds` from the pairwise `glued`: three `.` written with nothing between them are
+    pairwise not `glued` (`..` is no operator), yet Go reads ONE token `...`; `extendsOp` (prefix of a longer operator)
+    is the right boundary and does flag it -/
+example : glueFree [.tok (.sym "."), .tok (.sym "."), .tok (.sym ".")] = true ∧
+    GoLex.lex ['.', '.', '.'] = some [⟨.sym, ['.', '.', '.']⟩] ∧ extendsOp ['.'] '.' = true := by decide
+
+/-! ## identifiers, keywords, integers and operators separated by blanks / newlines -/
+
+/-- every token is a `Tok.wf` identifier or keyword, a decimal integer or one of Go's operators, and is followed by a
+    blank, a newline or the end -/
+def SimpleSpaced : List (Piece × Nat) → Prop
+  | [] => True
+  | (.tok t, _) :: r =>
+      ((∃ s, t = .ident s ∧ t.wf = true) ∨ (∃ s, t = .kw s ∧ t.wf = true) ∨
+        (∃ s, t = .num s ∧ isIntText s.toList = true) ∨ (∃ s, t = .sym s ∧ s.toList ∈ allOps)) ∧
+        (match r with | (.tok _, _) :: _ => False | _ => True) ∧ SimpleSpaced r
+  | _ :: r => SimpleSpaced r
+
+theorem ops_blank : ∀ o ∈ allOps, extendsOp o ' ' = false ∧ extendsOp o '\n' = false := by decide
+
+theorem ends_after (r : List (Piece × Nat)) (h : match r with | (.tok _, _) :: _ => False | _ => True) :
+    intEnds (layChars r) ∧ ∀ o ∈ allOps, opEnds o (layChars r) := by
+  match r, h with
+  | [], _ => exact ⟨fun c r' hc => by simp [layChars] at hc, fun o _ c r' hc => by simp [layChars] at hc⟩
+  | (.sp, _) :: _, _ =>
+    refine ⟨fun c r' hc => ?_, fun o ho c r' hc => ?_⟩
+    · simp only [layChars, List.cons.injEq] at hc; rw [← hc.1]; decide
+    · simp only [layChars, List.cons.injEq] at hc; rw [← hc.1]
+      exact ⟨(ops_blank o ho).1, fun _ => by decide⟩
+  | (.nl, _) :: _, _ =>
+    refine ⟨fun c r' hc => ?_, fun o ho c r' hc => ?_⟩
+    · simp only [layChars, List.cons.injEq] at hc; rw [← hc.1]; decide
+    · simp only [layChars, List.cons.injEq] at hc; rw [← hc.1]
+      exact ⟨(ops_blank o ho).2, fun _ => by decide⟩
+
+theorem tokSound_simple : ∀ ps : List (Piece × Nat), SimpleSpaced ps → TokSound ps := by
+  intro ps
+  induction ps with
+  | nil => intro _; trivial
+  | cons p r ih =>
+    obtain ⟨pc, k⟩ := p
+    cases pc with
+    | sp => intro h; exact ih h
+    | nl => intro h; exact ih h
+    | tok t =>
+      intro ⟨hk, hnext, hr⟩
+      have he := wordEnds_after r hnext
+      have he2 := ends_after r hnext
+      rcases hk with ⟨s, rfl, hwf⟩ | ⟨s, rfl, hwf⟩ | ⟨s, rfl, hi⟩ | ⟨s, rfl, ho⟩
+      · have := tokSound_words [(.tok (.ident s), k)] ⟨Or.inl ⟨s, rfl⟩, hwf, trivial, trivial⟩
+        exact ⟨this.1, lexTok_ident s hwf _ he, ih hr⟩
+      · have := tokSound_words [(.tok (.kw s), k)] ⟨Or.inr ⟨s, rfl⟩, hwf, trivial, trivial⟩
+        exact ⟨this.1, lexTok_kw s hwf _ he, ih hr⟩
+      · refine ⟨?_, lexTok_intTok s hi _ he2.1, ih hr⟩
+        unfold startOK
+        simp only [Tok.text]
+        cases hs : s.toList with
+        | nil => simp [hs, isIntText] at hi
+        | cons d ds =>
+          simp only [hs, isIntText, List.all_cons, Bool.and_eq_true] at hi
+          have hd := hi.2.1
+          have b1 : isBlank d = false := by
+            cases hb : isBlank d with
+            | false => rfl
+            | true =>
+              simp only [isBlank, Bool.or_eq_true, beq_iff_eq] at hb
+              rcases hb with (rfl | rfl) | rfl <;> exact absurd hd (by decide)
+          have b2 : d ≠ '\n' := by rintro rfl; exact absurd hd (by decide)
+          simp [b1, b2]
+      · refine ⟨?_, lexTok_symTok s ho _ (he2.2 _ ho), ih hr⟩
+        have hh := ops_head _ ho
+        unfold startOK
+        simp only [Tok.text]
+        cases hs : s.toList with
+        | nil => simp [hs, opHeadOK] at hh
+        | cons c0 o' =>
+          simp only [hs, opHeadOK, Bool.and_eq_true, Bool.not_eq_true', bne_iff_ne, ne_eq] at hh
+          simp [hh.1.2, hh.2]
+
+/-- **character-level lexing of identifiers, keywords, decimal integers and operators** (second partial
+    `lex_render_tokens`): a layout whose tokens are `Tok.wf` identifiers (every `go_ident` output, `goIdent_wf`),
+    keywords, decimal integers and Go's operators, each followed by a blank, a newline (any indentation) or the end, is
+    lexed by Go's lexer to exactly the tokens — kinds and texts — with the automatic semicolons.  Still missing: floats,
+    strings, and tokens written with nothing between them (`lexTok_int` / `lexTok_op` / `lexTok_word` give the
+    character-level boundary for each kind; deriving those boundaries from `glueFree` is not done — see the `...`
+    example). -/
+theorem lex_render_tokens_spaced_partial (ps : List (Piece × Nat)) (h : SimpleSpaced ps) :
+    GoLex.lex (layChars ps) = some (expectToks false (ps.map (·.1))) :=
+  lex_layout ps (tokSound_simple ps h)
+
+/-- non-vacuity: `x := 10 <<= y ;⏎}` -/
+example : GoLex.lex (layChars [(.tok (.ident "x"), 0), (.sp, 0), (.tok (.sym ":="), 0), (.sp, 0), (.tok (.num "10"), 0), (.sp, 0),
+      (.tok (.sym "<<="), 0), (.sp, 0), (.tok (.ident "y"), 0), (.nl, 2), (.tok (.sym "}"), 0)]) =
+    some [⟨.ident, ['x']⟩, ⟨.sym, [':', '=']⟩, ⟨.num, ['1', '0']⟩, ⟨.sym, ['<', '<', '=']⟩, ⟨.ident, ['y']⟩, semiTok,
+      ⟨.sym, ['}']⟩, semiTok] := by
+  rw [lex_render_tokens_spaced_partial _ (by
+    refine ⟨Or.inl ⟨_, rfl, by decide⟩, trivial, Or.inr (Or.inr (Or.inr ⟨_, rfl, by decide⟩)), trivial,
+      Or.inr (Or.inr (Or.inl ⟨_, rfl, by decide⟩)), trivial, Or.inr (Or.inr (Or.inr ⟨_, rfl, by decide⟩)), trivial,
+      Or.inl ⟨_, rfl, by decide⟩, trivial, Or.inr (Or.inr (Or.inr ⟨_, rfl, by decide⟩)), trivial, trivial⟩)]
   decide
 
 end Goml.GoPrint
